@@ -63,9 +63,9 @@ MUTANTS = [
     dict(name='M16_unknown_label_takes_first_case', targets=['C09'], file=MGR,
          old="        if selected_branch_label not in branch_nodes:\n            raise SwitchCaseDoesNotExistError(\n                f'The switch {switch_node_id} does not have a case for the label {selected_branch_label!r}',\n            )\n",
          new="        if selected_branch_label not in branch_nodes:\n            selected_branch_label = next(iter(branch_nodes))\n"),
-    dict(name='M17_execution_event_set_before_result', targets=['C03', 'C04'], file=MGR,
-         old="            await self.ctx.emit_on_node_complete(node_id=node_id, error=None)\n\n            logger.info('Getting the result after the execution, node_id=%s', node_id)\n",
-         new="            await self.ctx.emit_on_node_complete(node_id=node_id, error=None)\n            self._lock_manager.unlock_event(node_id)\n\n            logger.info('Getting the result after the execution, node_id=%s', node_id)\n"),
+    dict(name='M17_duplicate_request_does_not_wait', targets=['C03', 'C04'], file=MGR,
+         old="            await self._lock_manager.wait_for_event(node_id)\n\n            return self._node_storage.get_node_result(node_id)\n",
+         new="            return self._node_storage.get_node_result(node_id)\n"),
     dict(name='M18_additional_data_on_shared_graph', targets=['C08', 'C07'], file=MGR,
          old="            self._additional_data[start_from_node_id] = node_result.data\n",
          new="            self._additional_data[start_from_node_id] = node_result.data\n            self.dag.__dict__.setdefault('_last_data', {})[start_from_node_id] = node_result.data\n",
